@@ -46,13 +46,14 @@ var pfGoTypes = map[string]string{
 	"int": "int", "bool": "bool", "byte": "byte", "[]byte": "bytes", "string": "bytes", "error": "error",
 	"Position": "Position", "frame": "frame", "[]frame": "frames", "*stack": "stack", "stack": "stack",
 	"*State": "State", "State": "State", "*Result": "Result", "io.Reader": "reader", "ascii.Filter": "filter",
-	"func(byte) bool": "filter",
+	"func(byte) bool": "filter", "Parser": "parser", "Map": "mapfn",
 }
 
 var pfLeanTypes = map[string]string{
 	"int": "Int", "bool": "Bool", "byte": "UInt8", "bytes": "List UInt8", "error": "Option ε",
 	"Position": "Position", "frame": "Frame", "frames": "List Frame", "stack": "Stack", "State": "State ρ ε",
 	"Result": "ResultV", "reader": "ρ", "filter": "UInt8 → Bool",
+	"parser": "GoParser ρ ε", "parsers": "List (GoParser ρ ε)", "mapfn": "ResultV → ResultV × Option ε",
 }
 
 var pfStructLean = map[string]string{"Position": "Position", "frame": "Frame", "stack": "Stack", "State": "State"}
@@ -87,6 +88,7 @@ type pfFunc struct {
 	fill       bool       // State.Request: the read loop at its head is replaced by env.fill
 	prefix     []ast.Stmt // a constructor's set-up statements that compute something the parser uses
 	generic    bool       // the signature mentions ρ / ε
+	named      []pfParam  // named results: variables that start at their zero value
 }
 
 // the translated functions, callee before caller; `X/func0` is the parser a constructor returns
@@ -104,6 +106,7 @@ var pfOrder = []struct{ key, lean string }{
 	{"EOL", "parsEOL"}, {"calculateLineLength", "parsCalculateLineLength"}, {"Line", "parsLine"},
 	{"untilByte/func0", "parsUntilByte"}, {"untilFilter/func0", "parsUntilFilter"},
 	{"convertInt", "parsConvertInt"}, {"Int", "parsInt"},
+	{"Parser.Map/func0", "parsMap"}, {"Dry/func0", "parsDry"}, {"Maybe/func0", "parsMaybe"}, {"Any/func0", "parsAny"},
 }
 
 // the read loop of State.Request in the normal form of the facts (renaming-invariant)
@@ -749,6 +752,28 @@ func (c *pfCtx) call(n *ast.CallExpr) []pfVal {
 			return []pfVal{{"(" + a.lean + " = " + b.lean + ")", "prop"}}
 		}
 	}
+	// a parser or a result mapping held in a variable
+	if id, ok := n.Fun.(*ast.Ident); ok {
+		if v, isVar := c.vars[id.Name]; isVar && v.typ == "parser" && len(n.Args) == 2 {
+			st, rs := identName(n.Args[0]), identName(n.Args[1])
+			if st == "" || rs == "" || c.vars[st].typ != "State" || c.vars[rs].typ != "Result" {
+				c.refuse(n, "a parser applied to something else than the state and the result")
+			}
+			t := c.bindPartial(id.Name + " " + st + " " + rs)
+			c.assignPath(n, st, nil, t+".1")
+			c.assignPath(n, rs, nil, t+".2.1")
+			return []pfVal{{t + ".2.2", "error"}}
+		}
+		if v, isVar := c.vars[id.Name]; isVar && v.typ == "mapfn" && len(n.Args) == 1 {
+			rs := identName(n.Args[0])
+			if rs == "" || c.vars[rs].typ != "Result" {
+				c.refuse(n, "a mapping applied to something else than the result")
+			}
+			t := c.bindLet(id.Name + " " + rs)
+			c.assignPath(n, rs, nil, t+".1")
+			return []pfVal{{t + ".2", "error"}}
+		}
+	}
 	// a filter variable
 	if id, ok := n.Fun.(*ast.Ident); ok {
 		if v, isVar := c.vars[id.Name]; isVar && v.typ == "filter" && len(n.Args) == 1 {
@@ -1202,7 +1227,7 @@ func (c *pfCtx) ifStmt(n *ast.IfStmt, rest []ast.Stmt, k func(c *pfCtx) string) 
 	c.pre = nil
 	if n.Init != nil {
 		as, ok := n.Init.(*ast.AssignStmt)
-		if !ok || as.Tok != token.DEFINE {
+		if !ok || (as.Tok != token.DEFINE && as.Tok != token.ASSIGN) {
 			c.refuse(n, "init statement of an if")
 		}
 		in.assign(as)
@@ -1374,6 +1399,9 @@ func (c *pfCtx) rangeStmt(n *ast.RangeStmt, rest []ast.Stmt, k func(c *pfCtx) st
 		c.refuse(n, "a range statement that is not `for _, x := range p`")
 	}
 	p := c.expr(n.X)
+	if p.typ == "parsers" {
+		return c.rangeParsers(n, p, rest, k)
+	}
 	if p.typ != "bytes" {
 		c.refuse(n, "range over a %s", p.typ)
 	}
@@ -1394,6 +1422,69 @@ func (c *pfCtx) rangeStmt(n *ast.RangeStmt, rest []ast.Stmt, k func(c *pfCtx) st
 	body := b.pureBlock(n.Body.List, acc)
 	c.pre = append(c.pre, "let "+acc+" : "+pfLeanTypes[c.vars[acc].typ]+" := "+pfArg(p.lean)+".foldl (fun "+acc+" "+identName(n.Value)+" =>\n"+pfIndent(pfIndent(body))+") "+acc)
 	return c.flush() + c.stmts(rest, k)
+}
+
+// rangeParsers: `for _, p := range ps { … }` over a list of parsers, a body that may return: `rangeLoop` of the prelude
+// (one round per element, no fuel)
+func (c *pfCtx) rangeParsers(n *ast.RangeStmt, p pfVal, rest []ast.Stmt, k func(c *pfCtx) string) string {
+	if c.inLoop {
+		c.refuse(n, "nested loop")
+	}
+	head := c.flush()
+	elem := identName(n.Value)
+	as := c.assignedIn([]ast.Node{n.Body})
+	var loopVs, fixed []string
+	for _, v := range c.order {
+		if as[v] {
+			loopVs = append(loopVs, v)
+		} else {
+			fixed = append(fixed, v)
+		}
+	}
+	if len(loopVs) == 0 {
+		c.refuse(n, "a loop that assigns nothing")
+	}
+	lts := make([]string, len(loopVs))
+	for i, v := range loopVs {
+		lts[i] = c.vars[v].typ
+	}
+	sigma := pfTupleType(lts)
+	retT := pfTupleType(c.f.retTypes())
+	*c.nk++
+	id := *c.nk
+	bodyName := fmt.Sprintf("%s_body%d", c.f.lean, id)
+	exitName := fmt.Sprintf("%s_exit%d", c.f.lean, id)
+	fixedB, fixedA := "", ""
+	for _, v := range fixed {
+		fixedB += " (" + v + " : " + pfLeanTypes[c.vars[v].typ] + ")"
+		fixedA += " " + v
+	}
+	unpack := ""
+	for i, v := range loopVs {
+		unpack += "let " + v + " : " + pfLeanTypes[c.vars[v].typ] + " := " + pfProj("s_", i, len(loopVs)) + "\n"
+	}
+	gens := ""
+	if c.f.env {
+		gens += " env"
+	}
+	if c.f.fuel {
+		gens += " fuel"
+	}
+	ex := c.clone()
+	exitBody := ex.stmts(rest, k)
+	c.g.out = append(c.g.out, fmt.Sprintf("/-- %s: behind the loop `for _, %s := range %s` -/\n%s :=\n%s\n", c.f.doc, elem, nodeText(n.X),
+		c.f.header(exitName, fixedB+" (s_ : "+sigma+") : "+c.resultType()), pfIndent(unpack+exitBody)))
+	b := c.clone()
+	b.inLoop, b.loopVs = true, loopVs
+	b.flowT = "(" + sigma + ") (" + retT + ")"
+	b.declare(elem, "parser")
+	bodyText := b.stmts(n.Body.List, func(e *pfCtx) string { return "some (Flow.next " + pfArg(pfTuple(loopVs)) + ")" })
+	c.g.out = append(c.g.out, fmt.Sprintf("/-- %s: one round of the loop `for _, %s := range %s` -/\n%s :=\n%s\n", c.f.doc, elem, nodeText(n.X),
+		c.f.header(bodyName, fixedB+" ("+elem+" : "+pfLeanTypes["parser"]+") (s_ : "+sigma+") : Option (Flow "+b.flowT+")"), pfIndent(unpack+bodyText)))
+	if !c.f.partial {
+		refuse("go-pars: %s: a loop in a function that cannot panic", c.f.key)
+	}
+	return head + "rangeLoop (" + bodyName + gens + fixedA + ") (" + exitName + gens + fixedA + ") " + pfArg(p.lean) + " " + pfTuple(loopVs)
 }
 
 // pureBlock: the body of a range loop: assignments, `x.f++`, if / else over them — nothing that can panic or
@@ -1634,6 +1725,17 @@ func (g *pfGen) loadFunc(key, lean string) *pfFunc {
 					case "fmt.Sprintf", "reflect.ValueOf", "runtime.FuncForPC", "ascii.Rep":
 						f.textOnly[identName(as.Lhs[0])] = true
 						continue
+					case "AsParser":
+						// p := AsParser(q): the parser the combinator is built from
+						if len(r.Args) == 1 && identName(r.Args[0]) != "" {
+							f.params = append(f.params, pfParam{identName(as.Lhs[0]), "parser", false})
+							continue
+						}
+					case "AsParsers":
+						if len(r.Args) == 1 && identName(r.Args[0]) != "" && r.Ellipsis.IsValid() {
+							f.params = append(f.params, pfParam{identName(as.Lhs[0]), "parsers", false})
+							continue
+						}
 					case "[]byte":
 						// p := []byte(s): computed where the parser is built; translated in front of its body
 						if len(r.Args) == 1 && identName(r.Args[0]) != "" {
@@ -1665,6 +1767,9 @@ func (g *pfGen) loadFunc(key, lean string) *pfFunc {
 				if _, variadic := p.Type.(*ast.Ellipsis); variadic {
 					continue
 				}
+				if nodeText(p.Type) == "interface{}" {
+					continue // reaches the parser through `AsParser(q)` only
+				}
 				t := g.goType(key+": parameter", p.Type)
 				for _, n := range p.Names {
 					f.params = append(f.params, pfParam{n.Name, t, false})
@@ -1676,10 +1781,14 @@ func (g *pfGen) loadFunc(key, lean string) *pfFunc {
 	}
 	if f.ft.Results != nil {
 		for _, r := range f.ft.Results.List {
-			if len(r.Names) != 0 {
-				refuse("go-pars: %s: named results", key)
+			t := g.goType(key+": result", r.Type)
+			for _, n := range r.Names {
+				f.named = append(f.named, pfParam{n.Name, t, false})
 			}
-			f.results = append(f.results, g.goType(key+": result", r.Type))
+			if len(r.Names) > 1 {
+				refuse("go-pars: %s: several named results in one field", key)
+			}
+			f.results = append(f.results, t)
 		}
 	}
 	return f
@@ -1711,6 +1820,10 @@ func (g *pfGen) translate(f *pfFunc) {
 	}
 	body := append(append([]ast.Stmt{}, f.prefix...), f.body...)
 	head := ""
+	for _, n := range f.named {
+		c.declare(n.name, n.typ)
+		head += "let " + n.name + " : " + pfLeanTypes[n.typ] + " := " + c.zero(n.typ) + "\n"
+	}
 	if f.fill {
 		recv := f.params[0].name
 		head = "let " + recv + " : " + pfLeanTypes["State"] + " := env.fill " + recv + " " + f.params[1].name + "\n"
@@ -1778,6 +1891,10 @@ func genParsFns(repo string) (text string, err error) {
 			switch p.typ {
 			case "State", "error", "reader":
 				f.generic = true
+			case "parser", "parsers":
+				f.generic, f.partial = true, true // a parser that is called can panic
+			case "mapfn":
+				f.generic = true
 			}
 		}
 		for _, r := range f.results {
@@ -1823,6 +1940,7 @@ func genParsFns(repo string) (text string, err error) {
 	}
 	b.WriteString("/-- what is not translated: the read loop at the head of `State.Request` (`fill s n`: reads from `s.rd` into `s.buf` until\n`len(s.buf) ≥ s.off + n` or `s.err` is set), the error values (`mkErr`), `strconv.Atoi` on a byte string (`atoi`: value and\nerror), `ascii.IsDigit`, `ascii.IsSpace` -/\n")
 	b.WriteString("structure Env (ρ ε : Type) where\n  fill : State ρ ε → Int → State ρ ε\n  mkErr : ε\n  atoi : List UInt8 → Int × Option ε\n  isDigit : UInt8 → Bool\n  isSpace : UInt8 → Bool\n\n")
+	b.WriteString("/-- a `pars.Parser` held in a variable: it takes and gives back the state and the result and answers its error (`none` = nil);\n`none` outside = it panicked -/\nabbrev GoParser (ρ ε : Type) := State ρ ε → ResultV → Option (State ρ ε × ResultV × Option ε)\n\n")
 	for _, d := range g.out {
 		b.WriteString(d)
 		b.WriteString("\n")
@@ -1885,6 +2003,16 @@ def loop {σ R : Type} (body : σ → Option (Flow σ R)) (exit : σ → Option 
     match body s with
     | none => none
     | some (.next s') => loop body exit fuel s'
+    | some (.done s') => exit s'
+    | some (.ret r) => some r
+
+/-- ` + "`for _, x := range xs { body }`" + `; rest, with a body that may return: one round per element (no fuel) -/
+def rangeLoop {α σ R : Type} (body : α → σ → Option (Flow σ R)) (exit : σ → Option R) : List α → σ → Option R
+  | [], s => exit s
+  | x :: xs, s =>
+    match body x s with
+    | none => none
+    | some (.next s') => rangeLoop body exit xs s'
     | some (.done s') => exit s'
     | some (.ret r) => some r
 
